@@ -311,6 +311,7 @@ func (e *Engine) execInstr(st *State, b *ssa.BasicBlock, idx int, in ssa.Instruc
 			} else {
 				fr.regs[x] = e.loaded(st, term(val, m.Elem()))
 			}
+			e.runAts(st, in, true)
 			return true
 		}
 		// string index
